@@ -410,9 +410,19 @@ def run(ctx):
         if isinstance(p, ast.Call) and call_name(p) == "append" and isinstance(p.func.value, ast.Name):
             consumed = p.func.value.id
         elif isinstance(p, ast.Assign) and isinstance(p.targets[0], ast.Name):
-            var = p.targets[0].id
+            # the dict may travel through plain copies (`x = d`, the result variable of an expanded helper) before it is appended
+            vars_ = {p.targets[0].id}
+            grew_ = True
+            while grew_:
+                grew_ = False
+                for a_ in walk_own(w2j.node):
+                    if isinstance(a_, ast.Assign) and isinstance(a_.value, ast.Name) and a_.value.id in vars_:
+                        for t_ in a_.targets:
+                            if isinstance(t_, ast.Name) and t_.id not in vars_:
+                                vars_.add(t_.id)
+                                grew_ = True
             for c in walk_own(w2j.node):
-                if isinstance(c, ast.Call) and call_name(c) == "append" and c.args and isinstance(c.args[0], ast.Name) and c.args[0].id == var \
+                if isinstance(c, ast.Call) and call_name(c) == "append" and c.args and isinstance(c.args[0], ast.Name) and c.args[0].id in vars_ \
                         and isinstance(c.func.value, ast.Name):
                     consumed = c.func.value.id
         if consumed is not None and consumed not in child_arrays:
